@@ -44,7 +44,7 @@ Definition field_condK (env : list obj) (key : string) (o : option fopts) (t : f
   opts_ok o && dep_respected key o ob &&
   (if ignored key then true else
    match field_inputK kc env t key ob with
-   | None => match opt_default o with Some _ => true | None => declared_optional o ob || meetsK_absent kc t end
+   | None => match opt_default o with Some d => meetsK_default kc t d | None => declared_optional o ob || meetsK_absent kc t end
    | Some JNull => declared_optional o ob
    | Some v => meetsK_present kc (ob :: env) t o v
    end).
